@@ -1,1 +1,644 @@
-(* placeholder: proofs are delivered into this file *)
+(* Proofs for C01: execute_decrypt (execute_encrypt P) = P and execute_verify accepts, for every
+   length, mode, hash, key, seed, thread count and chunk size (model of FileModel.v).
+
+   Layout:
+   1. list / byte helpers;
+   2. a Section generic over the block functions E D: after every block the decryptor's register
+      equals the encryptor's register (all five modes), lifted to [run], to one chunk, and by
+      induction over the chunk list to the whole pipeline ([pipe_roundtrip]);
+   3. the shape of the loads performed by encryption and by decryption;
+   4. header / patch / verify facts and the assembly of [C01_roundtrip_proof]. *)
+From Coq Require Import NArith ZArith List Bool Arith Lia PeanoNat ZifyNat ZifyN ZifyBool.
+From Wencry Require Import Bytes AesSpec AesModel ModesSpec ModesModel HashSpec HashModel
+  FileModel FileSpec FileProps AesProofs ModesProofs HashProofs HmacProofs.
+From Wencry.Gen Require Layout.
+Import ListNotations.
+Local Open Scope N_scope.
+Local Ltac Zify.zify_post_hook ::= Z.to_euclidean_division_equations.
+
+(* ------------------------------------------------------------------------------------------ *)
+(* 1. helpers                                                                                  *)
+(* ------------------------------------------------------------------------------------------ *)
+
+Lemma bytes_app : forall a b, bytes a -> bytes b -> bytes (a ++ b).
+Proof. intros a b Ha Hb. apply Forall_app. split; assumption. Qed.
+
+Lemma bytes_firstn_skipn : forall n l, bytes l -> bytes (firstn n l) /\ bytes (skipn n l).
+Proof.
+  intros n l H. unfold bytes in *. rewrite <- (firstn_skipn n l) in H.
+  apply Forall_app in H. exact H.
+Qed.
+
+Lemma bytes_repeat : forall x n, x < 256 -> bytes (repeat x n).
+Proof. intros x n Hx. induction n as [|n IH]; cbn [repeat]; constructor; assumption. Qed.
+
+Lemma bytes_concat : forall bs, Forall bytes bs -> bytes (concat bs).
+Proof.
+  induction bs as [|b r IH]; intro H; cbn [concat]; [constructor|].
+  inversion H; subst. apply bytes_app; [assumption|apply IH; assumption].
+Qed.
+
+Lemma blocks16_bytes : forall bs, blocks16 bs -> Forall bytes bs.
+Proof.
+  intros bs H. induction H as [|b r Hb Hr IH]; constructor; [|exact IH].
+  apply block16_iff in Hb. exact (proj2 Hb).
+Qed.
+
+Lemma blocks16_len : forall bs, blocks16 bs -> Forall (fun b => length b = 16%nat) bs.
+Proof. intros bs H. induction H as [|b r Hb Hr IH]; constructor; [exact (proj1 Hb)|exact IH]. Qed.
+
+Lemma split_at : forall n (l : list N), (n <= length l)%nat ->
+  exists A R, l = A ++ R /\ length A = n /\ length R = (length l - n)%nat.
+Proof.
+  intros n l H. exists (firstn n l), (skipn n l).
+  rewrite firstn_skipn, firstn_length, skipn_length. repeat split; lia.
+Qed.
+
+Lemma chunks16_concat : forall bs : list (list N), Forall (fun b => length b = 16%nat) bs -> chunks 16 (concat bs) = bs.
+Proof.
+  induction bs as [|b r IH]; intro H; [reflexivity|].
+  inversion H; subst. cbn [concat]. rewrite chunks_app_exact by (try assumption; lia).
+  f_equal. apply IH. assumption.
+Qed.
+
+Lemma concat_len16 : forall bs : list (list N), Forall (fun b => length b = 16%nat) bs ->
+  length (concat bs) = (16 * length bs)%nat.
+Proof.
+  induction bs as [|b r IH]; intro H; [reflexivity|].
+  inversion H; subst. cbn [concat length]. rewrite app_length, IH by assumption. lia.
+Qed.
+
+Lemma chunks16_of_mul : forall t l, length l = (16 * t)%nat -> bytes l ->
+  blocks16 (chunks 16 l) /\ concat (chunks 16 l) = l /\ length (chunks 16 l) = t.
+Proof.
+  induction t as [|t IH]; intros l Hl Hb.
+  - destruct l; [|discriminate Hl]. repeat split. constructor.
+  - destruct (split_at 16 l) as [A [R [-> [HA HR]]]]; [lia|].
+    rewrite app_length in HR, Hl.
+    apply Forall_app in Hb. destruct Hb as [HbA HbR].
+    destruct (IH R) as [I1 [I2 I3]]; [lia|exact HbR|].
+    rewrite chunks_app_exact by (try exact HA; lia).
+    split; [|split].
+    + constructor; [|exact I1]. apply block16_iff. split; assumption.
+    + cbn [concat]. rewrite I2. reflexivity.
+    + cbn [length]. rewrite I3. reflexivity.
+Qed.
+
+Lemma run_length : forall E D k bs iv, length (snd (run E D k iv bs)) = length bs.
+Proof.
+  intros E D k. induction bs as [|b r IH]; intro iv; [reflexivity|].
+  rewrite snd_run_cons. cbn [length]. rewrite IH. reflexivity.
+Qed.
+
+Lemma Forall_nth_lt : forall (A : Type) (P : A -> Prop) l i d, Forall P l -> (i < length l)%nat -> P (nth i l d).
+Proof. intros A P l i d H Hi. rewrite Forall_forall in H. apply H, nth_In, Hi. Qed.
+
+Lemma fset_nth_length : forall (A : Type) n (x : A) l, length (FileModel.set_nth n x l) = length l.
+Proof.
+  intros A. induction n as [|n IH]; intros x [|y l]; cbn [FileModel.set_nth length]; try reflexivity.
+  f_equal. apply IH.
+Qed.
+
+Lemma Forall_set_nth : forall (A : Type) (P : A -> Prop) n x l, Forall P l -> P x -> Forall P (FileModel.set_nth n x l).
+Proof.
+  intros A P. induction n as [|n IH]; intros x [|y l] H Hx; cbn [FileModel.set_nth]; try constructor;
+    inversion H; subst; try assumption.
+  apply IH; assumption.
+Qed.
+
+(* ------------------------------------------------------------------------------------------ *)
+(* 2. the pipeline, generic in the block functions                                             *)
+(* ------------------------------------------------------------------------------------------ *)
+
+Inductive kpair : mkind -> mkind -> Prop :=
+| kp_ecb : kpair ECB_Enc ECB_Dec
+| kp_cbc : kpair CBC_Enc CBC_Dec
+| kp_ctr : kpair CTRm CTRm
+| kp_cfb : kpair CFB_Enc CFB_Dec
+| kp_ofb : kpair OFBm OFBm.
+
+Lemma create_kpair : forall m, m <= 4 ->
+  exists ke kd, create true m = Some ke /\ create false m = Some kd /\ kpair ke kd.
+Proof.
+  intros m Hm. assert (H : m = 0 \/ m = 1 \/ m = 2 \/ m = 3 \/ m = 4) by lia.
+  destruct H as [-> | [-> | [-> | [-> | ->]]]]; cbn [create]; do 2 eexists;
+    (split; [reflexivity|]); (split; [reflexivity|]); constructor.
+Qed.
+
+Section GenericPipe.
+Variables E D : list N -> list N.
+Hypothesis D_E     : forall b, block16 b -> D (E b) = b.
+Hypothesis E_block : forall b, block16 b -> block16 (E b).
+
+(* after one block the decryptor's register equals the encryptor's register *)
+Lemma runcry_inv : forall ke kd iv b, kpair ke kd -> block16 iv -> block16 b ->
+  runcry E D kd iv (snd (runcry E D ke iv b)) = (fst (runcry E D ke iv b), b) /\
+  block16 (fst (runcry E D ke iv b)) /\ block16 (snd (runcry E D ke iv b)).
+Proof.
+  intros ke kd iv b Hk Hiv Hb.
+  assert (He : block16 (E iv)) by (apply E_block; exact Hiv).
+  destruct Hk; cbn [runcry fst snd].
+  - rewrite D_E by exact Hb. split; [reflexivity|]. split; [exact Hiv|apply E_block; exact Hb].
+  - assert (Hx : block16 (xorl b iv)) by (apply block16_xorl; assumption).
+    rewrite D_E by exact Hx. rewrite xorl_cancel16 by assumption.
+    split; [reflexivity|]. split; apply E_block; exact Hx.
+  - rewrite xorl_cancel16 by assumption.
+    split; [reflexivity|]. split; [apply block16_ctrInc; exact Hiv|apply block16_xorl; assumption].
+  - rewrite xorl_cancel16 by assumption.
+    split; [reflexivity|]. split; apply block16_xorl; assumption.
+  - rewrite xorl_cancel16 by assumption.
+    split; [reflexivity|]. split; [exact He|apply block16_xorl; assumption].
+Qed.
+
+Lemma run_inv : forall ke kd, kpair ke kd -> forall bs iv, block16 iv -> blocks16 bs ->
+  run E D kd iv (snd (run E D ke iv bs)) = (fst (run E D ke iv bs), bs) /\
+  block16 (fst (run E D ke iv bs)) /\ blocks16 (snd (run E D ke iv bs)).
+Proof.
+  intros ke kd Hk. induction bs as [|b r IH]; intros iv Hiv Hbs.
+  - cbn [run fst snd]. split; [reflexivity|]. split; [exact Hiv|constructor].
+  - apply blocks16_cons in Hbs. destruct Hbs as [Hb Hr].
+    destruct (runcry_inv ke kd iv b Hk Hiv Hb) as [H1 [H2 H3]].
+    rewrite fst_run_cons, snd_run_cons.
+    destruct (IH _ H2 Hr) as [I1 [I2 I3]].
+    split; [|split; [exact I2|constructor; assumption]].
+    cbn [run]. rewrite H1. rewrite I1. reflexivity.
+Qed.
+
+(* one chunk of t blocks *)
+Lemma chunk_inv : forall ke kd, kpair ke kd -> forall t A iv, block16 iv -> bytes A -> length A = (16 * t)%nat ->
+  block16 (fst (run E D ke iv (blocks16_of A))) /\
+  bytes (concat (snd (run E D ke iv (blocks16_of A)))) /\
+  length (concat (snd (run E D ke iv (blocks16_of A)))) = (16 * t)%nat /\
+  run E D kd iv (blocks16_of (concat (snd (run E D ke iv (blocks16_of A))))) =
+    (fst (run E D ke iv (blocks16_of A)), blocks16_of A) /\
+  concat (blocks16_of A) = A.
+Proof.
+  intros ke kd Hk t A iv Hiv HbA HlA. unfold blocks16_of.
+  destruct (chunks16_of_mul t A HlA HbA) as [C1 [C2 C3]].
+  destruct (run_inv ke kd Hk (chunks 16 A) iv Hiv C1) as [R1 [R2 R3]].
+  split; [exact R2|]. split; [apply bytes_concat, blocks16_bytes, R3|].
+  split; [rewrite concat_len16 by (apply blocks16_len, R3); rewrite run_length, C3; reflexivity|].
+  split; [|exact C2].
+  rewrite chunks16_concat by (apply blocks16_len, R3). exact R1.
+Qed.
+
+End GenericPipe.
+
+(* ------------------------------------------------------------------------------------------ *)
+(* 3. shape of the loads                                                                       *)
+(* ------------------------------------------------------------------------------------------ *)
+
+Lemma sum_eq : forall c, sum c = (16 * c)%nat.
+Proof. reflexivity. Qed.
+
+Definition padlen (n : nat) : nat := (16 - n mod 16)%nat.
+Definition padded (P : list N) : list N := P ++ repeat (N.of_nat (padlen (length P))) (padlen (length P)).
+
+Lemma padlen_range : forall n, (1 <= padlen n <= 16)%nat.
+Proof. intro n. unfold padlen. lia. Qed.
+
+Lemma padded_length : forall P, length (padded P) = (16 * S (length P / 16))%nat.
+Proof. intro P. unfold padded, padlen. rewrite app_length, repeat_length. lia. Qed.
+
+Lemma padded_bytes : forall P, bytes P -> bytes (padded P).
+Proof.
+  intros P H. unfold padded. apply bytes_app; [exact H|]. apply bytes_repeat.
+  pose proof (padlen_range (length P)). lia.
+Qed.
+
+Lemma load_enc_full : forall c P, (sum c <= length P)%nat ->
+  load_enc c P = ({| ld_data := firstn (sum c) P; ld_total := c; ld_final := false |}, skipn (sum c) P).
+Proof.
+  intros c P H. unfold load_enc. cbv zeta. rewrite firstn_length, Nat.min_l by exact H.
+  rewrite Nat.eqb_refl. reflexivity.
+Qed.
+
+Lemma load_enc_last : forall c P, (length P < sum c)%nat ->
+  load_enc c P = ({| ld_data := padded P; ld_total := S (length P / 16); ld_final := true |}, []).
+Proof.
+  intros c P H. unfold load_enc. cbv zeta. rewrite firstn_all2 by lia.
+  destruct (Nat.eqb_spec (length P) (sum c)) as [Heq|_]; [lia|]. reflexivity.
+Qed.
+
+Lemma load_dec_full : forall c A R, length A = sum c -> R <> [] ->
+  load_dec c (A ++ R) = ({| ld_data := A; ld_total := c; ld_final := false |}, R).
+Proof.
+  intros c A R HA HR. unfold load_dec. cbv zeta.
+  rewrite firstn_app_exact by exact HA. rewrite skipn_app_exact by exact HA.
+  rewrite HA. rewrite Nat.ltb_irrefl.
+  assert (Hd : (sum c / 16 = c)%nat) by (rewrite sum_eq; lia).
+  rewrite Hd. rewrite firstn_all2 by (rewrite HA, sum_eq; lia).
+  destruct R; [congruence|]. reflexivity.
+Qed.
+
+Lemma load_dec_last : forall c B t, length B = (16 * t)%nat -> (t <= c)%nat ->
+  load_dec c B = ({| ld_data := B; ld_total := t; ld_final := true |}, []).
+Proof.
+  intros c B t HB Ht. unfold load_dec. cbv zeta.
+  rewrite skipn_all2 by (rewrite sum_eq; lia). rewrite orb_true_r.
+  rewrite (firstn_all2 B) by (rewrite sum_eq; lia). rewrite HB.
+  assert (Hd : (16 * t / 16 = t)%nat) by lia. rewrite Hd.
+  rewrite firstn_all2 by lia. reflexivity.
+Qed.
+
+Lemma div_sub_sum : forall s n, (1 <= s)%nat -> (s <= n)%nat -> (n / s = S ((n - s) / s))%nat.
+Proof.
+  intros s n Hs Hn. replace n with (n - s + 1 * s)%nat at 1 by lia.
+  rewrite Nat.div_add by lia. lia.
+Qed.
+
+Lemma loads_of_enc_full : forall c P, (1 <= c)%nat -> (sum c <= length P)%nat ->
+  loads_of c true P =
+  {| ld_data := firstn (sum c) P; ld_total := c; ld_final := false |} :: loads_of c true (skipn (sum c) P).
+Proof.
+  intros c P Hc H. unfold loads_of. rewrite skipn_length.
+  rewrite (div_sub_sum (sum c) (length P)) by (try exact H; rewrite sum_eq; lia).
+  set (f := S ((length P - sum c) / sum c)).
+  cbn [loads]. rewrite load_enc_full by exact H. cbn [ld_final]. reflexivity.
+Qed.
+
+Lemma loads_of_enc_last : forall c P, (length P < sum c)%nat ->
+  loads_of c true P = [{| ld_data := padded P; ld_total := S (length P / 16); ld_final := true |}].
+Proof.
+  intros c P H. unfold loads_of. cbn [loads]. rewrite load_enc_last by exact H. reflexivity.
+Qed.
+
+Lemma loads_of_dec_full : forall c A R, (1 <= c)%nat -> length A = sum c -> R <> [] ->
+  loads_of c false (A ++ R) = {| ld_data := A; ld_total := c; ld_final := false |} :: loads_of c false R.
+Proof.
+  intros c A R Hc HA HR. unfold loads_of. rewrite app_length.
+  rewrite (div_sub_sum (sum c) (length A + length R)) by (rewrite sum_eq in *; lia).
+  replace (length A + length R - sum c)%nat with (length R) by lia.
+  set (f := S (length R / sum c)).
+  cbn [loads]. rewrite load_dec_full by assumption. cbn [ld_final]. reflexivity.
+Qed.
+
+Lemma loads_of_dec_last : forall c B t, length B = (16 * t)%nat -> (t <= c)%nat ->
+  loads_of c false B = [{| ld_data := B; ld_total := t; ld_final := true |}].
+Proof.
+  intros c B t HB Ht. unfold loads_of. cbn [loads]. rewrite (load_dec_last c B t) by assumption. reflexivity.
+Qed.
+
+(* export *)
+Lemma export_nonfinal : forall c isp d tot data, length data = sum c ->
+  export c isp {| ld_data := d; ld_total := tot; ld_final := false |} data = Ok data.
+Proof. intros c isp d tot data H. unfold export. cbn [ld_final]. rewrite firstn_all2 by lia. reflexivity. Qed.
+
+Lemma export_enc_final : forall c d t data, length data = (16 * t)%nat ->
+  export c true {| ld_data := d; ld_total := t; ld_final := true |} data = Ok data.
+Proof. intros c d t data H. unfold export. cbn [ld_final ld_total]. rewrite firstn_all2 by lia. reflexivity. Qed.
+
+Lemma nth_repeat_lt : forall (x d : N) n i, (i < n)%nat -> nth i (repeat x n) d = x.
+Proof.
+  intros x d. induction n as [|n IH]; intros i Hi; [lia|].
+  destruct i as [|i]; cbn [repeat nth]; [reflexivity|]. apply IH. lia.
+Qed.
+
+Lemma export_dec_final : forall c d P,
+  export c false {| ld_data := d; ld_total := S (length P / 16); ld_final := true |} (padded P) = Ok P.
+Proof.
+  intros c d P. unfold export. cbn [ld_final ld_total].
+  pose proof (padlen_range (length P)) as Hp.
+  assert (Hn : nth (16 * S (length P / 16) - 1) (padded P) 0 = N.of_nat (padlen (length P))).
+  { unfold padded. rewrite app_nth2 by (unfold padlen in *; lia).
+    apply nth_repeat_lt. unfold padlen in *. lia. }
+  rewrite Hn, Nat2N.id.
+  destruct (Nat.ltb_spec (16 * S (length P / 16)) (padlen (length P))) as [Hlt|_]; [lia|].
+  f_equal. unfold padded. rewrite firstn_app.
+  replace (16 * S (length P / 16) - padlen (length P))%nat with (length P) by (unfold padlen; lia).
+  rewrite Nat.sub_diag, firstn_all. cbn [firstn]. apply app_nil_r.
+Qed.
+
+(* ------------------------------------------------------------------------------------------ *)
+(* 4. the whole pipeline: decryption of the encrypted stream restores the input                 *)
+(* ------------------------------------------------------------------------------------------ *)
+
+Lemma pipe_chunks_cons_ok : forall E D kind T c isp ivs j l r iv' out bytes_ rest,
+  ld_final l && (ld_total l =? 0)%nat = false ->
+  run E D kind (nth (j mod T) ivs []) (blocks16_of (ld_data l)) = (iv', out) ->
+  export c isp l (concat out) = Ok bytes_ ->
+  pipe_chunks E D kind T c isp (FileModel.set_nth (j mod T) iv' ivs) (S j) r = Ok rest ->
+  pipe_chunks E D kind T c isp ivs j (l :: r) = Ok (bytes_ ++ rest).
+Proof.
+  intros E D kind T c isp ivs j l r iv' out bytes_ rest H1 H2 H3 H4.
+  cbn [pipe_chunks]. rewrite H1, H2, H3, H4. reflexivity.
+Qed.
+
+Lemma pipe_chunks_single_ok : forall E D kind T c isp ivs j l iv' out bytes_,
+  ld_final l && (ld_total l =? 0)%nat = false ->
+  run E D kind (nth (j mod T) ivs []) (blocks16_of (ld_data l)) = (iv', out) ->
+  export c isp l (concat out) = Ok bytes_ ->
+  pipe_chunks E D kind T c isp ivs j [l] = Ok bytes_.
+Proof.
+  intros E D kind T c isp ivs j l iv' out bytes_ H1 H2 H3.
+  cbn [pipe_chunks]. rewrite H1, H2, H3, app_nil_r. reflexivity.
+Qed.
+
+Section GenericPipe2.
+Variables E D : list N -> list N.
+Hypothesis D_E     : forall b, block16 b -> D (E b) = b.
+Hypothesis E_block : forall b, block16 b -> block16 (E b).
+
+Lemma pipe_roundtrip : forall ke kd T c, kpair ke kd -> (1 <= T)%nat -> (1 <= c)%nat ->
+  forall n P, (length P < sum c * S n)%nat -> bytes P ->
+  forall j ivs, length ivs = T -> Forall block16 ivs ->
+  exists body,
+    pipe_chunks E D ke T c true ivs j (loads_of c true P) = Ok body /\
+    pipe_chunks E D kd T c false ivs j (loads_of c false body) = Ok P /\
+    length body = (16 * (length P / 16 + 1))%nat /\ bytes body.
+Proof.
+  intros ke kd T c Hk HT Hc.
+  assert (Hlast : forall P, (length P < sum c)%nat -> bytes P ->
+    forall j ivs, length ivs = T -> Forall block16 ivs ->
+    exists body,
+      pipe_chunks E D ke T c true ivs j (loads_of c true P) = Ok body /\
+      pipe_chunks E D kd T c false ivs j (loads_of c false body) = Ok P /\
+      length body = (16 * (length P / 16 + 1))%nat /\ bytes body).
+  { intros P HP HbP j ivs Hl Hivs.
+    assert (Hiv : block16 (nth (j mod T) ivs [])).
+    { apply Forall_nth_lt; [exact Hivs|]. rewrite Hl. apply Nat.mod_upper_bound. lia. }
+    set (t := S (length P / 16)).
+    assert (Ht : (t <= c)%nat) by (unfold t; rewrite sum_eq in HP; lia).
+    destruct (chunk_inv E D D_E E_block ke kd Hk t (padded P) _ Hiv (padded_bytes P HbP) (padded_length P))
+      as [C1 [C2 [C3 [C4 C5]]]].
+    set (r := run E D ke (nth (j mod T) ivs []) (blocks16_of (padded P))) in *.
+    exists (concat (snd r)).
+    rewrite loads_of_enc_last by exact HP. fold t.
+    rewrite (loads_of_dec_last c (concat (snd r)) t C3 Ht).
+    split; [|split; [|split; [rewrite C3; unfold t; lia|exact C2]]].
+    - apply (pipe_chunks_single_ok E D ke T c true ivs j _ (fst r) (snd r)).
+      + reflexivity.
+      + cbn [ld_data]. fold r. destruct r; reflexivity.
+      + apply export_enc_final. exact C3.
+    - apply (pipe_chunks_single_ok E D kd T c false ivs j _ (fst r) (blocks16_of (padded P))).
+      + reflexivity.
+      + cbn [ld_data]. exact C4.
+      + rewrite C5. apply export_dec_final. }
+  induction n as [|n IH]; intros P HP HbP j ivs Hl Hivs.
+  - apply Hlast; try assumption. lia.
+  - destruct (Nat.lt_ge_cases (length P) (sum c)) as [Hlt|Hge]; [apply Hlast; assumption|].
+    assert (Hiv : block16 (nth (j mod T) ivs [])).
+    { apply Forall_nth_lt; [exact Hivs|]. rewrite Hl. apply Nat.mod_upper_bound. lia. }
+    destruct (split_at (sum c) P Hge) as [A [R [-> [HA HR]]]].
+    rewrite app_length in HR, HP.
+    apply Forall_app in HbP. destruct HbP as [HbA HbR].
+    destruct (chunk_inv E D D_E E_block ke kd Hk c A _ Hiv HbA HA) as [C1 [C2 [C3 [C4 C5]]]].
+    set (r := run E D ke (nth (j mod T) ivs []) (blocks16_of A)) in *.
+    destruct (IH R) with (j := S j) (ivs := FileModel.set_nth (j mod T) (fst r) ivs) as [bodyR [I1 [I2 [I3 I4]]]].
+    + rewrite (Nat.mul_succ_r _ (S n)) in HP. lia.
+    + exact HbR.
+    + rewrite fset_nth_length. exact Hl.
+    + apply Forall_set_nth; assumption.
+    + exists (concat (snd r) ++ bodyR).
+      assert (HneR : bodyR <> []) by (intro He; rewrite He in I3; cbn [length] in I3; lia).
+      rewrite loads_of_enc_full by (try exact Hc; rewrite app_length; lia).
+      rewrite firstn_app_exact by exact HA. rewrite skipn_app_exact by exact HA.
+      rewrite loads_of_dec_full by (try assumption; rewrite C3; reflexivity).
+      split; [|split; [|split]].
+      * apply (pipe_chunks_cons_ok E D ke T c true ivs j _ _ (fst r) (snd r)).
+        -- reflexivity.
+        -- cbn [ld_data]. fold r. destruct r; reflexivity.
+        -- apply export_nonfinal. rewrite C3. reflexivity.
+        -- exact I1.
+      * apply (pipe_chunks_cons_ok E D kd T c false ivs j _ _ (fst r) (blocks16_of A)).
+        -- reflexivity.
+        -- cbn [ld_data]. exact C4.
+        -- rewrite C5. apply export_nonfinal. exact HA.
+        -- exact I2.
+      * rewrite !app_length. rewrite sum_eq in HA. lia.
+      * apply bytes_app; assumption.
+Qed.
+
+End GenericPipe2.
+
+(* ------------------------------------------------------------------------------------------ *)
+(* 5. header, tag patch, verify                                                                *)
+(* ------------------------------------------------------------------------------------------ *)
+
+Lemma be32_bytes_bytes : forall w, bytes (be32_bytes w).
+Proof.
+  intro w. unfold be32_bytes. repeat constructor; apply N.mod_lt; discriminate.
+Qed.
+
+Lemma sha1_digest_bytes : forall m, bytes (getStringHash alg_sha1 m).
+Proof.
+  intro m. unfold getStringHash. change (ha_out alg_sha1) with (flat_map be32_bytes).
+  generalize (hs_h (string_loop alg_sha1 (S (length m / 64)) (reset alg_sha1) m)). intro l.
+  induction l as [|w l IH]; cbn [flat_map]; [constructor|].
+  apply bytes_app; [apply be32_bytes_bytes|exact IH].
+Qed.
+
+Lemma sha1_digest_length : forall m, length (getStringHash alg_sha1 m) = 20%nat.
+Proof. intro m. exact (proj1 (getStringHash_length 0 alg_sha1 m eq_refl)). Qed.
+
+Lemma iv_chain_from_props : forall n prev,
+  length (iv_chain_from prev n) = (20 * n)%nat /\ bytes (iv_chain_from prev n).
+Proof.
+  induction n as [|n IH]; intro prev; cbn [iv_chain_from]; [split; [reflexivity|constructor]|].
+  destruct (IH (getStringHash alg_sha1 prev)) as [I1 I2]. split.
+  - rewrite app_length, I1, sha1_digest_length. lia.
+  - apply bytes_app; [apply sha1_digest_bytes|exact I2].
+Qed.
+
+Lemma iv_chain_props : forall seed T, (1 <= T)%nat ->
+  length (iv_chain seed T) = (20 * T)%nat /\ bytes (iv_chain seed T).
+Proof.
+  intros seed T HT. destruct T as [|n]; [lia|]. unfold iv_chain.
+  destruct (iv_chain_from_props n (getStringHash alg_sha1 seed)) as [I1 I2]. split.
+  - rewrite app_length, I1, sha1_digest_length. lia.
+  - apply bytes_app; [apply sha1_digest_bytes|exact I2].
+Qed.
+
+Lemma magic_length : length magic_bytes = 8%nat.
+Proof. reflexivity. Qed.
+
+Lemma skipn_zeros : forall k n, skipn k (zeros n) = zeros (n - k).
+Proof.
+  induction k as [|k IH]; intro n; [rewrite Nat.sub_0_r; reflexivity|].
+  destruct n as [|n]; [reflexivity|]. cbn [zeros repeat skipn Nat.sub]. apply IH.
+Qed.
+
+(* overwriting inside a zero field that follows a prefix A *)
+Lemma patch_in_zeros : forall A n R w, (length w <= n)%nat ->
+  patch (A ++ zeros n ++ R) (length A) w = A ++ w ++ zeros (n - length w) ++ R.
+Proof.
+  intros A n R w Hw. unfold patch.
+  replace (length A - length (A ++ zeros n ++ R))%nat with 0%nat by (rewrite app_length; lia).
+  cbn [zeros repeat]. rewrite app_nil_r.
+  rewrite firstn_app_exact by reflexivity. f_equal. f_equal.
+  rewrite Nat.add_comm, skipn_add. rewrite skipn_app_exact by reflexivity.
+  rewrite skipn_app_ge by (rewrite zeros_length; exact Hw).
+  rewrite skipn_zeros. reflexivity.
+Qed.
+
+Lemma patch_nil_0 : forall X, patch [] 0 X = X.
+Proof.
+  intro X. unfold patch. cbn [length Nat.sub zeros repeat app firstn Nat.add].
+  rewrite skipn_nil. apply app_nil_r.
+Qed.
+
+Lemma bytes_zeros : forall n, bytes (zeros n).
+Proof. intro n. apply bytes_repeat. reflexivity. Qed.
+
+Lemma hlen_le : forall hbuf hm key msg t, hmac_model hbuf hm key msg = Some t -> (length t <= 32)%nat.
+Proof.
+  intros hbuf hm key msg t H. rewrite (C08_tag_length_proof hbuf hm key msg t H).
+  destruct hm as [|[p|p|]]; lia.
+Qed.
+
+Lemma pow56 : 2 ^ 56 = 72057594037927936.
+Proof. reflexivity. Qed.
+
+(* ------------------------------------------------------------------------------------------ *)
+(* 6. enc / verify / dec under their success conditions                                        *)
+(* ------------------------------------------------------------------------------------------ *)
+
+Opaque aes_enc_with aes_dec_with genall hmac_model getStringHash magic_bytes.
+
+Lemma enc_ok : forall c hbuf T P key cm hm seed ke body tag,
+  create true cm = Some ke ->
+  pipe_seq (aes_enc_with (genall key)) (aes_dec_with (genall key)) ke T c true
+           (firstn 16 (iv_chain seed T)) P = Ok body ->
+  hmac_model hbuf hm key (skipn iv_mark (file_header cm hm (iv_chain seed T) T ++ body)) = Some tag ->
+  enc c hbuf T P key cm hm seed = Ok (patch (file_header cm hm (iv_chain seed T) T ++ body) hmac_mark tag).
+Proof.
+  intros c hbuf T P key cm hm seed ke body tag H1 H2 H3.
+  unfold enc, enc_writes. cbv zeta. rewrite H1, H2, H3.
+  unfold apply_writes. cbn [fold_left fst snd]. rewrite patch_nil_0. reflexivity.
+Qed.
+
+Lemma verify_ok : forall hbuf F key tag,
+  firstn 8 F = magic_bytes -> (74 <= length F)%nat -> nth 8 F 0 <= 4 -> nth 9 F 0 <= 2 ->
+  hmac_model hbuf (nth 9 F 0) key (skipn 48 F) = Some tag ->
+  firstn (length tag) (skipn 10 F) = tag -> (length tag <= 64)%nat ->
+  verify hbuf F key = Ok 0.
+Proof.
+  intros hbuf F key tag Hm Hl Hc Hh Hmac Htag Htl. unfold verify.
+  change hmac_mark with 10%nat. change iv_mark with 48%nat. cbv zeta.
+  destruct (Nat.ltb_spec (length F) 8) as [H|_]; [lia|].
+  rewrite Hm. rewrite (proj2 (list_eqb_eq magic_bytes magic_bytes) eq_refl). cbn [negb].
+  destruct (Nat.ltb_spec (length F) (10 + 64)) as [H|_]; [lia|].
+  destruct (N.ltb_spec 4 (nth 8 F 0)) as [H|_]; [lia|].
+  destruct (N.ltb_spec 2 (nth 9 F 0)) as [H|_]; [lia|].
+  cbn [orb]. rewrite Hmac.
+  rewrite (proj2 (C08_compare_all_bytes_proof tag (firstn 64 (skipn 10 F)))); [reflexivity|].
+  rewrite firstn_firstn, Nat.min_l by exact Htl. exact Htag.
+Qed.
+
+Lemma dec_ok : forall c hbuf T F key kd,
+  verify hbuf F key = Ok 0 -> (text_mark T <= length F)%nat -> create false (nth 8 F 0) = Some kd ->
+  dec c hbuf T F key =
+  pipe_seq (aes_enc_with (genall key)) (aes_dec_with (genall key)) kd T c false
+           (firstn 16 (skipn 48 F)) (skipn (text_mark T) F).
+Proof.
+  intros c hbuf T F key kd Hv Hl Hk. unfold dec. rewrite Hv.
+  destruct (Nat.ltb_spec (length F) (text_mark T)) as [H|_]; [lia|].
+  rewrite Hk. reflexivity.
+Qed.
+
+Lemma text_mark_eq : forall T, text_mark T = (48 + 20 * T)%nat.
+Proof. reflexivity. Qed.
+
+(* ------------------------------------------------------------------------------------------ *)
+(* 7. C01                                                                                      *)
+(* ------------------------------------------------------------------------------------------ *)
+
+Lemma Forall_repeat : forall (A : Type) (P : A -> Prop) x n, P x -> Forall P (repeat x n).
+Proof. intros A P x n H. induction n as [|n IH]; cbn [repeat]; constructor; assumption. Qed.
+
+Lemma C01_roundtrip_proof : forall c hbuf T P key seed cm hm,
+  enc_params c hbuf T P key seed cm hm ->
+  exists F, enc c hbuf T P key cm hm seed = Ok F /\
+            dec c hbuf T F key = Ok P /\
+            ver hbuf F key = Ok true.
+Proof.
+  intros c hbuf T P key seed cm hm [Hc Hh HT HP Hkey Hseed Hcm Hhm HsP HsT HsS].
+  destruct (create_kpair cm Hcm) as [ke [kd [Hke [Hkd Hk]]]].
+  destruct (iv_chain_props seed T HT) as [Hivl Hivb].
+  assert (Hiv16 : block16 (firstn 16 (iv_chain seed T))).
+  { apply block16_iff. split; [rewrite firstn_length; lia|apply bytes_firstn_skipn; exact Hivb]. }
+  apply bytesb_bytes in HP.
+  assert (Hfuel : (length P < sum c * S (length P))%nat).
+  { rewrite sum_eq. nia. }
+  destruct (pipe_roundtrip (aes_enc key) (aes_dec key)
+              (fun b Hb => C09_decrypt_inverts_encrypt_proof key b Hkey Hb)
+              (fun b Hb => proj1 (C09_outputs_are_blocks_proof key b Hkey Hb))
+              ke kd T c Hk HT Hc (length P) P Hfuel HP 0%nat
+              (repeat (firstn 16 (iv_chain seed T)) T) (repeat_length _ _)
+              (Forall_repeat _ _ _ _ Hiv16)) as [body [B1 [B2 [B3 B4]]]].
+  (* the written stream *)
+  assert (Hhdr : file_header cm hm (iv_chain seed T) T ++ body =
+                 (magic_bytes ++ [cm; hm]) ++ zeros 38 ++ (iv_chain seed T ++ body)).
+  { unfold file_header. change (N.to_nat Layout.PADDING) with 38%nat.
+    rewrite (firstn_all2 (iv_chain seed T)) by lia. rewrite <- !app_assoc. reflexivity. }
+  set (ivs := iv_chain seed T) in *.
+  set (A := magic_bytes ++ [cm; hm]) in *.
+  assert (HA : length A = 10%nat) by (unfold A; rewrite app_length, magic_length; reflexivity).
+  assert (Hmsg : skipn 48 (file_header cm hm ivs T ++ body) = ivs ++ body).
+  { rewrite Hhdr. rewrite app_assoc. apply skipn_app_exact.
+    rewrite app_length, HA, zeros_length. reflexivity. }
+  (* the tag *)
+  assert (Hmac : hmac_model hbuf hm key (ivs ++ body) =
+                 Some (hmac_spec (hash_spec hm) key (ivs ++ body))).
+  { apply C08_tag_is_rfc2104_hmac_proof; try assumption.
+    - apply bytesb_bytes. apply bytes_app; assumption.
+    - rewrite app_length, Hivl, B3, pow64. rewrite pow56 in HsP. lia. }
+  set (tag := hmac_spec (hash_spec hm) key (ivs ++ body)) in *.
+  assert (Htl : (length tag <= 32)%nat) by exact (hlen_le _ _ _ _ _ Hmac).
+  (* the file *)
+  set (F := patch (file_header cm hm ivs T ++ body) hmac_mark tag).
+  assert (HF : F = A ++ tag ++ zeros (38 - length tag) ++ (ivs ++ body)).
+  { unfold F. rewrite Hhdr. change hmac_mark with 10%nat. rewrite <- HA.
+    apply patch_in_zeros. lia. }
+  assert (Henc : enc c hbuf T P key cm hm seed = Ok F).
+  { apply (enc_ok c hbuf T P key cm hm seed ke body tag Hke).
+    - exact B1.
+    - change iv_mark with 48%nat. fold ivs. rewrite Hmsg. exact Hmac. }
+  assert (HlF : length F = (48 + 20 * T + length body)%nat).
+  { rewrite HF, !app_length, HA, zeros_length, Hivl. lia. }
+  assert (Hsk48 : skipn 48 F = ivs ++ body).
+  { rewrite HF. rewrite (app_assoc tag), (app_assoc A). apply skipn_app_exact.
+    rewrite !app_length, HA, zeros_length. lia. }
+  assert (HF8 : F = magic_bytes ++ cm :: hm :: tag ++ zeros (38 - length tag) ++ (ivs ++ body)).
+  { rewrite HF. unfold A. rewrite <- app_assoc. reflexivity. }
+  assert (Hn8 : nth 8 F 0 = cm).
+  { rewrite HF8. rewrite app_nth2 by (rewrite magic_length; lia). rewrite magic_length. reflexivity. }
+  assert (Hn9 : nth 9 F 0 = hm).
+  { rewrite HF8. rewrite app_nth2 by (rewrite magic_length; lia). rewrite magic_length. reflexivity. }
+  assert (Hver : verify hbuf F key = Ok 0).
+  { apply (verify_ok hbuf F key tag).
+    - rewrite HF8. apply firstn_app_exact. exact magic_length.
+    - lia.
+    - rewrite Hn8. exact Hcm.
+    - rewrite Hn9. exact Hhm.
+    - rewrite Hn9, Hsk48. exact Hmac.
+    - rewrite HF. rewrite skipn_app_exact by exact HA. apply firstn_app_exact. reflexivity.
+    - lia. }
+  exists F. split; [exact Henc|]. split.
+  - rewrite (dec_ok c hbuf T F key kd Hver); [| rewrite text_mark_eq; lia | rewrite Hn8; exact Hkd].
+    rewrite Hsk48. rewrite firstn_app_ge by lia.
+    assert (Hbody : skipn (text_mark T) F = body).
+    { rewrite text_mark_eq, HF. rewrite !app_assoc.
+      apply skipn_app_exact. rewrite !app_length, HA, zeros_length, Hivl. lia. }
+    rewrite Hbody. exact B2.
+  - unfold ver. rewrite Hver. reflexivity.
+Qed.
+Print Assumptions C01_roundtrip_proof.
+
+(* non-vacuity: the hypotheses hold on a concrete non-trivial instance (CBC, SHA-256, 3 streams,
+   40 plaintext bytes, 2-block chunks) *)
+Example C01_nonvacuous :
+  enc_params 2 1 3 (map N.of_nat (seq 0 40)) (repeat 11 16) [1; 2; 3] 1 2.
+Proof.
+  constructor; try (vm_compute; lia); try reflexivity; try (split; reflexivity);
+    try (vm_compute; discriminate).
+Qed.
+
+(* concrete runs, including the look-ahead case (the padded input fills the last chunk exactly) *)
+Example C01_run_lookahead :
+  let P := map N.of_nat (seq 0 16) in let key := repeat 11 16 in
+  match enc 2 1 2 P key 1 0 [7] with
+  | Ok F => dec 2 1 2 F key = Ok P /\ ver 1 F key = Ok true /\ length F = (48 + 40 + 32)%nat
+  | _ => False
+  end.
+Proof. vm_compute. repeat split. Qed.
